@@ -41,8 +41,8 @@ const (
 const (
 	pushTimeout    = 2 * time.Second
 	pollEvery      = 100 * time.Millisecond
-	quietWindow    = pushTimeout + 6*time.Second // suspicious state must be frozen this long
-	rereadDelay    = pushTimeout + 3*time.Second // after the canary arrived
+	quietWindow    = pushTimeout + 5*time.Second // suspicious state must be frozen this long
+	rereadDelay    = pushTimeout + 2*time.Second // after the canary arrived
 	eventualBudget = 90 * time.Second            // bounded eventuality deadline
 	stallWindow    = 30 * time.Second            // retry record frozen this long with B up = no attempts are made
 	canaryBudget   = 25 * time.Second
@@ -355,6 +355,9 @@ func (w *world) mustExec(n *pnode, q string) hx.Result {
 func (w *world) write(wr Write) int {
 	slot := wr.Doc % w.c.NDocs
 	d := w.docs[slot]
+	if col := w.docs[colSlot]; col != nil && w.repSet && (d == nil || !d.deleted) {
+		col.exempt = false // this write adds a collection-level commit under the replicator
+	}
 	if d == nil {
 		name := fmt.Sprintf("d%d", slot)
 		r := w.mustExec(w.a, fmt.Sprintf(`mutation { create_Users(input: {name: %q, n: %d}) { _docID } }`, name, wr.V))
@@ -605,6 +608,8 @@ func (w *world) converge(full bool, where string) *hx.Failure {
 	lastChange := time.Now()
 	// retry-ineffective bookkeeping: the same documents pending with the same heads while the
 	// retry round counter advances
+	var lastOrphan string
+	orphanSince := time.Now()
 	var lastPend string
 	pendSince := time.Now()
 	pendRounds0 := 0
@@ -623,12 +628,18 @@ func (w *world) converge(full bool, where string) *hx.Failure {
 			return nil
 		}
 		frozen := time.Since(lastChange)
-		if len(orphan) > 0 && frozen >= quietWindow {
+		// The orphan rule looks only at the orphans (their heads on both nodes and the absence of
+		// their retry records): retry rounds spinning for another document must not mask them.
+		if ok := s.orphanKey(orphan); ok != lastOrphan {
+			lastOrphan, orphanSince = ok, time.Now()
+		}
+		if len(orphan) > 0 && time.Since(orphanSince) >= quietWindow {
 			if f := w.confirmOrphan(s, orphan, where); f != nil {
 				return f
 			}
 			// moved after all: start over
 			last, lastChange = "", time.Now()
+			lastOrphan, orphanSince = "", time.Now()
 			continue
 		}
 		if len(orphan) == 0 && len(pending) > 0 && frozen >= stallWindow {
@@ -662,8 +673,18 @@ func (w *world) converge(full bool, where string) *hx.Failure {
 		if sleepTick() {
 			lastChange = time.Now()
 			lastPend = ""
+			lastOrphan = ""
 		}
 	}
+}
+
+// orphanKey renders what must stay the same for the orphan rule.
+func (s snap) orphanKey(orphan []int) string {
+	var sb strings.Builder
+	for _, slot := range orphan {
+		fmt.Fprintf(&sb, "%d:%v|%v;", slot, s.a[slot], s.b[slot])
+	}
+	return sb.String()
 }
 
 // pendingKey renders what must stay the same for "the retry rounds achieve nothing".
@@ -1073,6 +1094,12 @@ func (w *world) setReplicator() {
 			d.exempt = true
 			w.info.set("doc-deleted-before-setreplicator")
 		}
+	}
+	if col := w.docs[colSlot]; col != nil && len(w.order) > 0 {
+		// Likewise SetReplicator pushes document heads only: collection-level commits that exist
+		// already reach B with the first collection-level commit written afterwards (it links to them).
+		col.exempt = true
+		w.info.set("collection-commits-before-setreplicator")
 	}
 	w.tr.f("A.SetReplicator(B) (B up=%v)", w.b.up)
 	if err := w.a.N.Peer.SetReplicator(w.a.Ctx, w.b.info); err != nil {
